@@ -384,8 +384,15 @@ def run(R):
     else:
         R.fail('C09.TBL.3', inst, CM, 'ALTERNATE_URI_STR', f'tables are not inverse / differ from the naming conventions: {t1} vs {t2}', P.path_of(CM))
     for lit, typ in (('sha256digest', 'TYPE_IMPLICIT_SHA256'), ('params-sha256', 'TYPE_PARAMETERS_SHA256')):
-        a_ = any(t.kind == 'test' and ast.unparse(t.ast) == f"typ_str == '{lit}'" for t in cf.cfg.nodes)
-        b_ = f'{lit}=' in ast.unparse(ts_.f.node) and any(t.kind == 'test' and ast.unparse(t.ast) == f'typ == {typ}' for t in ts_.cfg.nodes)
+        def mentions(cx_, lit=lit, typ=typ):
+            # the literal prefix (as a constant of its own, or at the head of a longer one) together with the type constant, in whatever
+            # construct (comparison, table key, f-string): both directions must know the same prefix for the same type
+            src_ = cx_.f.node
+            lits_ = [x.value for x in ast.walk(src_) if isinstance(x, ast.Constant) and isinstance(x.value, str)]
+            return any(v == lit or v.startswith(lit + '=') for v in lits_) and any(
+                isinstance(x, (ast.Name, ast.Attribute)) and ast.unparse(x).split('.')[-1] == typ for x in ast.walk(src_))
+        a_ = any(t.kind == 'test' and ast.unparse(t.ast) == f"typ_str == '{lit}'" for t in cf.cfg.nodes) or mentions(cf)
+        b_ = (f'{lit}=' in ast.unparse(ts_.f.node) and any(t.kind == 'test' and ast.unparse(t.ast) == f'typ == {typ}' for t in ts_.cfg.nodes)) or mentions(ts_)
         inst = f'digest shorthand {lit}'
         if a_ and b_:
             R.ok('C09.TBL.3', inst, P.path_of(CM))
